@@ -208,6 +208,11 @@ class Swap(base.Mutator):
       child1 = parent_node.children[child_indexes[1]]
       parent_node.children.rebind({child_indexes[0]: child1})
       parent_node.children.rebind({child_indexes[1]: child0})
+      # The swapped sub-choices now sit at other positions of the multi-choice:
+      # re-bind them to the decision points of their new positions.
+      choices_spec = parent_node.children[child_indexes[0]].spec.parent_spec
+      for i in child_indexes:
+        parent_node.children[i].use_spec(choices_spec.subchoice(i))
     return dna
 
   def _get_candidate_nodes(self, dna: pg.DNA) -> List[pg.DNA]:
